@@ -282,6 +282,62 @@ def setParents (s : Store) (parent : Nat) : Nat → Option Nat → Res Store
     let s1 ← s.modify c fun x => { x with parent := some parent }
     setParents s1 parent f cn.next
 
+/-! ### gnode_swap.c / gnode_relink.c -/
+
+/-- `mpt_gnode_swap(pri, sec)`: the two nodes exchange their children -/
+def swap (s : Store) (fuel pri sec : Nat) : Res Store := do
+  let pn ← s.get pri
+  let sn ← s.get sec
+  let s1 ← s.modify sec fun x => { x with children := pn.children }
+  let s2 ← s1.modify pri fun x => { x with children := sn.children }
+  let s3 ← s2.setParents sec fuel pn.children
+  s3.setParents pri fuel sn.children
+
+/-- `node->next->parent = node->parent; node->next->prev = node;` (when there is a successor) -/
+def relinkNext (s : Store) (node : Nat) : Res Store := do
+  let nn ← s.get node
+  match nn.next with
+  | none => .ok s
+  | some x => s.modify x fun y => { y with parent := nn.parent, prev := some node }
+
+/-- `while (node != start && !node->next) node = node->parent;`: the node whose successor is visited next,
+    `none` when the walk is back at `start` -/
+def relinkUp (s : Store) (start : Nat) : Nat → Nat → Res (Option Nat)
+  | 0, _ => .fault
+  | f + 1, node =>
+    if node = start then .ok none else do
+    let nn ← s.get node
+    match nn.next with
+    | some x => .ok (some x)
+    | none =>
+      match nn.parent with
+      | none => .fault
+      | some p => relinkUp s start f p
+
+/-- the loop of `mpt_gnode_relink`: pre-order walk below `start` -/
+def relinkLoop (s : Store) (start : Nat) : Nat → Option Nat → Res Store
+  | _, none => .ok s
+  | 0, some _ => .fault
+  | f + 1, some node =>
+    if node = start then .ok s else do
+    let s1 ← relinkNext s node
+    let nn ← s1.get node
+    match nn.children with
+    | some c => do
+      let s2 ← s1.modify c fun y => { y with parent := some node }
+      relinkLoop s2 start f (some c)
+    | none => do
+      let r ← relinkUp s1 start s1.fuel node
+      relinkLoop s1 start f r
+
+/-- `mpt_gnode_relink(node)`: parent and predecessor links below `node` are rewritten from the child/successor links -/
+def relink (s : Store) (fuel node : Nat) : Res Store := do
+  let sn ← s.get node
+  let s1 ← (match sn.children with
+    | some c => s.modify c fun y => { y with parent := some node }
+    | none => .ok s)
+  relinkLoop s1 node fuel sn.children
+
 /-- `if (!last) last = first = cpy; else last = mpt_gnode_after(last, cpy);` -/
 def linkLast (s : Store) (last : Option Nat) (cpy : Nat) : Res Store :=
   match last with
